@@ -106,7 +106,7 @@ Theorem C07_handlers_bypass_extendors : forall W,
                   (flat_map (fun h => map snd (filter (fun e => req_applicable W required (fst (fst e))
                                                               && match snd (fst e) with None => true | Some _ => false end)
                                                      (run_led h))) hs)).
-Proof. intros W. split; [exact (handlers_lemma W)|exact (handlers_multiset_lemma W)]. Qed.
+Proof. exact handlers_bypass_lemma. Qed.
 Print Assumptions C07_handlers_bypass_extendors.
 
 (* ------------------------------------------------------------------ non-vacuity witnesses *)
